@@ -38,7 +38,13 @@ type Reg struct {
 	// HC: afterwards Headers() is called once more with no pairs at all, which
 	// replaces the set by the empty one.
 	HC bool `json:"h_cleared,omitempty"`
+	// Boom: the route's handler panics (with a Boom value) once it has recorded
+	// that it ran; no Recovery is installed, the panic is the caller's.
+	Boom bool `json:"handler_panics,omitempty"`
 }
+
+// Boom is the value a Reg.Boom handler panics with.
+type Boom struct{}
 
 // Req is one request.
 type Req struct {
@@ -262,6 +268,9 @@ func (a *App) Register(i int, g Reg) (err interface{}) {
 			for k, v := range c.Params() {
 				a.cur.Params[k] = v
 			}
+		}
+		if g.Boom {
+			panic(Boom{})
 		}
 		c.ResponseWriter().WriteHeader(http.StatusOK)
 	}})
